@@ -1,8 +1,12 @@
 import Librfn.Driver.Pure
 import Librfn.Driver.Mlog
+import Librfn.Driver.Pack
+import Librfn.Driver.Wav
 
 def main (args : List String) : IO UInt32 :=
   match args with
   | "pure" :: rest => Librfn.Driver.Pure.main rest
   | "mlog" :: rest => Librfn.Driver.Mlog.main rest
+  | "pack" :: rest => Librfn.Driver.Pack.main rest
+  | "wav" :: rest => Librfn.Driver.Wav.main rest
   | _ => do IO.eprintln "usage: librfn_model <engine> [args]"; return 2
